@@ -263,9 +263,14 @@ def c07_extra(o):
     if 'completed_attr' in o and o['completed_attr'] != completed(o['ro']):
         out.append('C07 accessor: ro.completed=%r but the document %s a completion record'
                    % (o['completed_attr'], 'has' if completed(o['ro']) else 'has no'))
-    if completed(o['ro']) and o.get('reread') is not None and o['reread'] != {'cls': 'RunningOrder', 'completed': True}:
+    rr = dict(o['reread']) if o.get('reread') is not None else None
+    refuses = rr.pop('refuses', None) if rr is not None else None
+    if completed(o['ro']) and rr is not None and rr != {'cls': 'RunningOrder', 'completed': True}:
         out.append('a completed running order written out and read back must be a RunningOrder that is '
-                   'still completed; got %r' % (o['reread'],))
+                   'still completed; got %r' % (rr,))
+    if refuses is not None and refuses != ['MosCompletedMergeError', True]:
+        out.append('the completed running order written out and read back must refuse the message with MosCompletedMergeError '
+                   'and stay unchanged; got %r' % (refuses,))
     if o.get('werror') is not None and o['werror'] != {'err': 'MosCompletedMergeError', 'unchanged': True}:
         out.append('adding to the completed running order with warnings promoted to errors (-W error) '
                    'must raise MosCompletedMergeError and change nothing; got %r' % (o['werror'],))
